@@ -2,6 +2,7 @@ package main
 
 import (
 	"fmt"
+	"go/token"
 	"go/types"
 	"strconv"
 	"strings"
@@ -484,6 +485,15 @@ func init() {
 		t := e.term(st, args[0])
 		s := e.sortOfT(args[0].Typ)
 		return one(st, Val{K: kTerm, Typ: rt, Sort: sInt, T: tIte(tEq(t, "none_"+s), "0", tApp("val_"+s, t))})
+	}
+	// go-ethereum BytesToBloom panics ("bloom bytes too big") on more than 256 bytes; otherwise a pure function
+	intrinsicsByName["github.com/ethereum/go-ethereum/core/types.BytesToBloom"] = func(e *Env, st *State, args []Val, rt types.Type, c *ssa.CallCommon) []Out {
+		p := token.NoPos
+		if c != nil {
+			p = c.Pos()
+		}
+		e.safety(st, tApp("bvule", tApp("slen64", e.term(st, args[0])), bvLit(256, 64)), "bloom-bytes-too-big", p)
+		return e.pureCall(st, "github.com/ethereum/go-ethereum/core/types.BytesToBloom", args, rt)
 	}
 	// ---- time: instants as mathematical nanoseconds, durations as int64 ----
 	sbv2int := func(t string) string {
